@@ -199,6 +199,28 @@ class Ctx:
             a = self.container_atom(o)
             if a is not None:
                 return Lin({a: 1})
+        if k == "CXXMemberCallExpr" and x.callee and not x.call_args() and depth < 3:
+            # a trivial const getter called on *this ( size() { return _vec.size(); } ): its value is the returned expression
+            o = x.call_object()
+            if (o is None or o.strip_all().k == "CXXThisExpr") and x.callee.get("const") and x.callee.get("cls") == self.f.cls:
+                g = self.prog.functions.get(x.callee.get("usr"))
+                if g is not None:
+                    rets = [r for r in g.walk() if r.k == "ReturnStmt" and r.c]
+                    body_nodes = sum(1 for _ in g.walk())
+                    if len(rets) == 1 and body_nodes < 25:
+                        sub = Ctx(self.prog, g)
+                        v = sub.lin(rets[0].c[0], depth + 1)
+                        if v is not None and all(a.startswith("this.") or a.startswith("sz:this.") for a in v.atoms()) and not sub.divs:
+                            for a in v.atoms():
+                                if a.startswith("sz:this."):
+                                    fld = a[len("sz:this."):]
+                                    if ("field", fld) in self._written_ids() or ("field", "*") in self._written_ids():
+                                        return None
+                                    self.sizes.add(a)
+                                    self.size_keys[a] = ("field", fld, fld, "field")
+                                elif ("field", a[len("this."):]) in self._written_ids():
+                                    return None
+                            return v
             return None
         return None
 
@@ -609,8 +631,8 @@ def rule_G7(prog, fixture=False):
         idx_no = {}
         for (node, base, idx) in subs:
             key = ctx.container_key(base)
-            if key is None or key[0] == "field":
-                continue          # members and computed containers: their size is object state, not decided here
+            if key is None:
+                continue          # computed containers (results of calls, elements of containers): not decided here
             nm = key[2]
             idx_no[nm] = idx_no.get(nm, 0) + 1
             okey = "G7:%s:%s[%d]" % (fkey(f), nm, idx_no[nm])
@@ -638,8 +660,9 @@ def rule_G7(prog, fixture=False):
             alternatives, nonlinear, more_incomplete, relevant = _gather(ctx, f, node, base_cons, set(e.atoms()) | {satom},
                                                                          size_cache, skip_size_of=(satom if key[3] == "local" else None))
             incomplete += more_incomplete
-            if key[3] == "parm" and not any(satom in c.atoms() for alt in alternatives for c in (alt + base_cons) if c is not size):
-                res.add(okey, UNMODELLED, where, what, "no live check ties the size of '%s' to anything at this point" % nm, func=f.name, extra=extra)
+            if key[3] in ("parm", "field") and not any(satom in c.atoms() for alt in alternatives for c in (alt + base_cons) if c is not size):
+                res.add(okey, UNMODELLED, where, what, "no live check ties the size of %s'%s' to anything at this point" % (
+                    "the member " if key[3] == "field" else "", nm), func=f.name, extra=extra)
                 continue
             cases = _cases(ctx, base_cons, alternatives, relevant)
             if cases is None:
